@@ -81,6 +81,7 @@ func runPedersen(t *core.Tape, tier string, info *core.RunInfo, protocol bool) *
 		w.variantName = "pedersen-protocol"
 	}
 	honestClass := t.Bool("cfg.class", 120)
+	w.timePhaser = protocol && t.Bool("cfg.phaser", 250)
 	w.reshare = t.Bool("cfg", 400)
 	w.fast = t.Bool("cfg", 450)
 	w.echo = !t.Bool("cfg", 350)
@@ -288,6 +289,7 @@ func runPedersen(t *core.Tape, tier string, info *core.RunInfo, protocol bool) *
 		}
 	}
 	info.Config["variant"], info.Config["reshare"], info.Config["fast_sync"], info.Config["echo"] = w.variantName, w.reshare, w.fast, w.echo
+	info.Config["phaser"] = map[bool]string{false: "simulator-owned", true: "kyber TimePhaser under the fake clock, skewed"}[w.timePhaser]
 	info.Config["old_n"], info.Config["old_t"], info.Config["new_n"], info.Config["new_t"] = len(w.oldNodes), w.oldT, len(w.newNodes), w.newT
 	info.Config["faulty"], info.Config["dup_pm"], info.Config["hole_pm"] = fl, w.dupPm, w.holePm
 	var ni []string
